@@ -19,6 +19,51 @@ def kn(t):
     return None
 
 
+def trivia_resets_joint(prog, R, ti, rule):
+    """Must-assign rule on the CFG of to_input: from the successor taken when `kind.is_trivia()` is true, every path
+    back to the next `is_trivia` test passes through `was_joint = false` (so any trivia token, of whatever kind,
+    separates the parts of a composite operator), and from the non-trivia successor every such path passes through
+    `was_joint = true` or the float rule's assignment."""
+    wj = [i for i, l in enumerate(ti.locals) if l.get("name") == "was_joint"]
+    tests = [bi for bi, t in ti.calls() if (ti.callee_of(t) or "").endswith("SyntaxKind::is_trivia")]
+    if len(wj) != 1 or len(tests) != 1:
+        R.ob(rule, "trivia resets the joint flag", False, ti.at, f"anchor shape changed: locals named was_joint {wj}, is_trivia tests {tests}")
+        return
+    wj, test = wj[0], tests[0]
+    # the switch on the result of is_trivia
+    tgt = ti.blocks[test].term["target"]
+    sw = ti.blocks[tgt]
+    if sw.term["k"] != "switch":
+        R.ob(rule, "trivia resets the joint flag", False, ti.at, "is_trivia result is not branched on directly")
+        return
+    cases = {str(v): b_ for v, b_ in sw.term["cases"]}
+    false_succ = cases.get("0")
+    true_succ = sw.term["otherwise"] if false_succ is not None else None
+    assigns = {}     # block -> list of constants assigned to was_joint
+    for bi, si, st in ti.stmts_with_pos():
+        if st["k"] == "assign" and st["lhs"]["l"] == wj and not st["lhs"]["p"]:
+            rv = st["rv"]
+            v = rv["op"].get("int", rv["op"].get("bits")) if rv["k"] == "use" and rv["op"].get("k") == "const" else "?"
+            assigns.setdefault(bi, []).append(str(v))
+    succ = ti.succ()
+
+    def reaches_without(start, kill):
+        seen, stack = set(), [start]
+        while stack:
+            x = stack.pop()
+            if x in seen or x in kill or ti.blocks[x].cleanup:
+                continue
+            seen.add(x)
+            if x == test:
+                return True
+            stack.extend(succ[x])
+        return False
+    kill_false = {bi for bi, vs in assigns.items() if vs[-1] == "0"}
+    ok = true_succ is not None and not reaches_without(true_succ, kill_false)
+    R.ob(rule, "every trivia token resets the joint flag", ok, sw.term["at"], f"was_joint = false in blocks {sorted(kill_false)}; trivia successor bb{true_succ}" if ok else
+         f"a path from the trivia branch (bb{true_succ}) reaches the next token without `was_joint = false`: a trivia token (e.g. a comment) between two operator characters would not separate them, and the composite token would swallow the trivia")
+
+
 def run(prog, R):
     R.explanation = ("Agreement of the sibling classification tables: for every single-character token the lexer arm composed with the token conversion equals "
                      "SyntaxKind::from_char and the punctuation spelling table; keyword and type-name tables follow the naming convention, are disjoint and cover every *_KW / *_TY kind; "
@@ -154,6 +199,7 @@ def run(prog, R):
         R.ob("C15.5-trivia", "is_trivia == {WHITESPACE, COMMENT}", triv == {"WHITESPACE", "COMMENT"}, it.at, f"{sorted(triv)}")
     ti = R.anchor(prog, "oq3_parser::shortcuts::LexedStr::to_input")
     if ti:
+        trivia_resets_joint(prog, R, ti, "C15.5-trivia")
         # was_joint is set false on trivia and true after a non-trivia token; Input::was_joint() only under the flag
         ps = SymExec(prog, ti, max_visits=2, max_paths=3000).paths()
         bad = 0
